@@ -22,7 +22,7 @@ PLANS = {
            + [("C02k", "solo0", "plain", 2500, None, None, False), ("C02l", "solo0", "plain", 2500, None, None, False)]
            + [("C02d", "solo0,mid,last", "plain,count", 500, 3000, None, False), ("C02h", "solo37", "fit", 700, 4000, None, False), ("C02g", "solo37", "fit", 400, 2000, None, False),
               ("C02k", "edge", "fit", 800, None, None, False, 16), ("C02e", "edge", "fit", 500, 3000, None, False, 16)],
-    "C03": [("C03", "solo0", "plain", 7000, None, None, False),
+    "C03": [("C03", "solo0", "plain", 7000, None, None, False), ("C03k", "solo0", "plain", None, None, None, False),
             # the same lines inside a program, in counting mode and where chunk fitting has to pad and assemble them again
             ("C03", "solo0,mid,last", "plain,count", 700, 4000, None, False), ("C03", "solo37", "fit", 900, 5000, None, False),
             ("C03", "edge", "fit", 1500, 9000, None, False, 16)],
@@ -304,6 +304,17 @@ def c16_bases(tier):
         out.append(r)
         if len(seen) >= (60 if tier == "quick" else 200):
             break
+    # lines that fill the 99 characters the filter keeps (and one less): leading zeros of an immediate / a displacement make up the length;
+    # every style that keeps the literal as written applies (blanks, case, comments, line ends do not count against the buffer)
+    def rr(n):
+        return {"k": "r", "cls": "g", "w": 64, "n": n, "hi": False}
+    proto = next(r for r in A.load_corpus(A.corpus("C01")) if len(r["ast"]["opds"]) == 2 and all(o["k"] == "r" and o.get("w") == 64 for o in r["ast"]["opds"]))
+    r0, r1 = proto["ast"]["opds"]
+    for kept in (99, 98):
+        # "add rax,0x" is 10 kept characters, the digits follow
+        ast = {"mn": "add", "opds": [dict(r0), {"k": "i", "kw": "", "neg": False, "mag": [0x12, 0, 0, 0, 0, 0, 0, 0], "radix": "hex", "digits": 0}]}
+        ast["opds"][1]["digits"] = kept - len(A.render({"mn": "add", "opds": [dict(r0), dict(ast["opds"][1], digits=2)]}).replace(", ", ",")) + 2
+        out.append({"id": "C16L/add-%d" % kept, "prop": "C16", "status": "Supported", "ast": ast, "full": True})
     return out
 
 
@@ -329,6 +340,8 @@ def run_c16(prop, tier, replay=None):
         if "ast" in b:
             jobs.append({"id": b["id"] + "#c", "text": S.apply(b["ast"], S.DEFAULT), "prop": "C16", "status": "Unconstrained"})
             for k, st in enumerate(styles):
+                if b.get("full") and (st["zeros"] != "asis" or st["radix"] != "asis"):
+                    continue          # (more digits would not fit the line)
                 jid = "%s#%d" % (b["id"], k)
                 jobs.append({"id": jid, "text": S.apply(b["ast"], st), "prop": "C16", "status": "Unconstrained"})
                 meta[jid] = (S.key(st), st["zeros"] != "asis" or st["radix"] != "asis")
